@@ -697,10 +697,13 @@ callback_chunkedheader(void * cookie, int status)
 	if (eolpos != buflen) {
 		/*
 		 * Parse the chunk length; it's always in base 16, and allow
-		 * trailing characters to accommodate the EOL.  ${buf} is not
-		 * NUL-terminated but it does contain an EOL, so the cast is
-		 * safe.
+		 * trailing characters to accommodate chunk extensions.
+		 * NUL-terminate the line first (overwriting the \r of the
+		 * EOL, which we are about to consume anyway): strtoumax skips
+		 * leading white space -- including \r and \n -- and must
+		 * not run past the data we have read.
 		 */
+		buf[eolpos] = '\0';
 		if (PARSENUM_EX(&clen, (const char *)buf, 0, SIZE_MAX, 16, 1)) {
 			/* Print ${buf} carefully (it's not NUL-terminated). */
 			if (eolpos <= INT_MAX)
